@@ -8,7 +8,7 @@ IDS=$(python3 -c "import json;print(' '.join(c['property_id'] for c in json.load
 run_one() {
   p=$1; n=$(basename $p .diff)
   d=$(mktemp -d /tmp/verif-benign.XXXXXX)
-  rsync -a --exclude target --exclude .git /repo/ $d/repo/
+  mkdir -p $d/repo && git -C /repo archive HEAD | tar -x -C $d/repo     # the committed tree: immune to a patch applied to /repo meanwhile
   out="== $p"
   if ! (cd $d/repo && patch -p1 -s < /verif/$p); then echo "$out"; echo "  does not apply"; rm -rf $d; return; fi
   mkdir $d/ev
